@@ -732,6 +732,57 @@ fn holes(out: &mut Vec<ModuleSpec>, n: usize, seed: u64) {
     }
 }
 
+/// Adaptive family: the orchestrator found comparisons against these integer constants in the
+/// generator / strategies / runtime; build records whose number of data and byte extent straddle each.
+pub fn adaptive(thresholds: &[usize]) -> Vec<ModuleSpec> {
+    let mut out = Vec::new();
+    for &n in thresholds {
+        if !(2..=300).contains(&n) {
+            continue;
+        }
+        for count in [n - 1, n, n + 1] {
+            for (label, s) in [("simple", Simple), ("basic", Basic)] {
+                // alternating small may-be-uninit data and mandatory owning data
+                let mut h = Vec::new();
+                for i in 0..count {
+                    h.push(match i % 4 {
+                        0 => add(&f(i), Str),
+                        1 => addu(&f(i), U8),
+                        2 => add(&f(i), U32),
+                        _ => addu(&f(i), U16),
+                    });
+                }
+                h.push(close(s));
+                h.push(rm(&f(0)));
+                h.push(add("late", VecU32));
+                h.push(close(s));
+                fragments(ModuleSpec::new(format!("adaptive/count{}/{}/{}", n, count, label), h), &mut out, false);
+            }
+            // byte extent: one byte per datum (all plain), then one owning datum, then both mixed
+            let mut h = Vec::new();
+            for i in 0..count {
+                h.push(if i % 2 == 0 { addu(&f(i), U8) } else { add(&f(i), U8) });
+            }
+            h.push(close(Append));
+            h.push(add("tail", Str));
+            h.push(close(Simple));
+            fragments(ModuleSpec::new(format!("adaptive/extent{}/{}", n, count), h), &mut out, false);
+            if count > 24 {
+                let mut h = vec![add("head", Str)];
+                for i in 0..(count - 24) {
+                    h.push(addu(&f(i), U8));
+                }
+                h.push(close(Append));
+                h.push(rm(&f(0)));
+                h.push(add("x", Noisy));
+                h.push(close(Simple));
+                fragments(ModuleSpec::new(format!("adaptive/extent{}/{}+owning", n, count), h), &mut out, false);
+            }
+        }
+    }
+    out
+}
+
 pub fn specs(thorough: bool, seed: u64) -> Vec<ModuleSpec> {
     let mut out = Vec::new();
     h1(&mut out, thorough);
